@@ -222,7 +222,7 @@ CP_ALL_OK = "all(supported(E[j]) and dtype_of(E[j]) == dtype_of(E[0]) for j in r
 PROPS_G = "link(obj(self), 'properties')"
 
 REG.contract(
-    "nixio.section.Section.create_property", props=["C10", "C12"],
+    "nixio.section.Section.create_property", props=["C10", "C12", "C03"],
     params=dict(self=Obj("Section"), name=Str, values_or_dtype=Dyn, oid=Dyn, copy_from=Dyn, keep_copy_id=Bool),
     result=Obj("Property"), note="fresh_result",
     requires=["is_none(copy_from)",
